@@ -806,10 +806,13 @@ func init() {
 		}
 		sc := t.w.convs[p[0]%len(t.w.convs)]
 		var in cty.Value
-		switch p[1] % 4 {
-		case 0:
+		switch {
+		case sc.src < 0:
+			// a conversion from the placeholder type decides late, per value: every task hands it values of many types
+			in = a[0]
+		case p[1]%4 == 0:
 			in = cty.NullVal(sc.in)
-		case 1:
+		case p[1]%4 == 1:
 			in = cty.UnknownVal(sc.in)
 		default:
 			in = t.w.vals[sc.src]
@@ -1245,6 +1248,31 @@ func c20GenWorld(c *Ctx) *world {
 			}
 		}) == nil && conv != nil {
 			w.convs = append(w.convs, sharedConv{in: in, out: out, conv: conv, src: src})
+		}
+	}
+	// ... conversions whose source is the placeholder type (the real conversion is chosen when a value arrives)
+	nDynConv := c.G(3)
+	for i := 0; i < nDynConv; i++ {
+		var out cty.Type
+		switch c.G(3) {
+		case 0:
+			out = w.types[c.G(len(w.types))]
+		case 1:
+			out = w.vals[c.G(len(w.vals))].Type()
+		default:
+			out = []cty.Type{cty.String, cty.Number, cty.Bool, cty.List(cty.String), cty.Map(cty.String), cty.Set(cty.String), cty.List(cty.DynamicPseudoType)}[c.G(7)]
+		}
+		var conv convert.Conversion
+		unsafe := c.G(3) != 0
+		if catch(func() {
+			if unsafe {
+				conv = convert.GetConversionUnsafe(cty.DynamicPseudoType, out)
+			} else {
+				conv = convert.GetConversion(cty.DynamicPseudoType, out)
+			}
+		}) == nil && conv != nil {
+			w.convs = append(w.convs, sharedConv{in: cty.DynamicPseudoType, out: out, conv: conv, src: -1})
+			c.Probe("c20.shared-conversion-from-dynamic")
 		}
 	}
 	// ... and the conversions unification hands out for its inputs
